@@ -50,7 +50,7 @@ var texts = []string{"Hello", " wörld ✓", "日本語のテキスト", "a", "l
 func genArgs(rng *rand.Rand, depth int) any {
 	switch x := rng.Intn(8); {
 	case depth > 2 || x < 2:
-		return []any{"s", "ünï", 1, -2.5, true, nil, "", "a\"b\\c\n"}[rng.Intn(8)]
+		return []any{"s", "ünï", 1, -2.5, true, nil, "", "a\"b\\c\n", json.Number("1234567890123456789"), json.Number("-9007199254740993")}[rng.Intn(10)]
 	case x < 5:
 		m := map[string]any{}
 		for i := 0; i < rng.Intn(4); i++ {
@@ -184,7 +184,20 @@ func renderSSE(rng *rand.Rand, c completion) []byte {
 		if len(pieces) > 0 && rng.Intn(2) == 0 {
 			first, pieces = pieces[0], pieces[1:]
 		}
-		body = append(body, chunk(map[string]any{"tool_calls": []any{map[string]any{"index": ti, "id": s.ID, "type": "function", "function": map[string]any{"name": s.Name, "arguments": first}}}}, nil))
+		hdr := map[string]any{"tool_calls": []any{map[string]any{"index": ti, "id": s.ID, "type": "function", "function": map[string]any{"name": s.Name, "arguments": first}}}}
+		if n := len(body); n > 0 && rng.Intn(4) == 0 {
+			// the last text piece and the start of the tool call in ONE delta (what a backend that
+			// emits a whole turn per chunk does)
+			if d, ok := body[n-1]["choices"].([]any)[0].(map[string]any)["delta"].(map[string]any); ok {
+				if txt, isText := d["content"].(string); isText && txt != "" && d["tool_calls"] == nil {
+					d["tool_calls"] = hdr["tool_calls"]
+					hdr = nil
+				}
+			}
+		}
+		if hdr != nil {
+			body = append(body, chunk(hdr, nil))
+		}
 		for _, p := range pieces {
 			body = append(body, chunk(map[string]any{"tool_calls": []any{map[string]any{"index": ti, "function": map[string]any{"arguments": p}}}}, nil))
 		}
@@ -379,6 +392,20 @@ func judge(run *rep.Run, c completion, out []byte, tr *anthropic.Translator, whe
 	}
 	var bText strings.Builder
 	var bTools []seg
+	var rawBlocks struct {
+		Content []map[string]json.RawMessage `json:"content"`
+	}
+	json.Unmarshal(bb, &rawBlocks)
+	for i, rb := range rawBlocks.Content {
+		var typ string
+		json.Unmarshal(rb["type"], &typ)
+		if _, ok := rb["text"]; typ == "text" && !ok {
+			run.Violation("C13/buffered/malformed-block/text-without-text", fmt.Sprintf("buffered translation: content block %d is a text block without a text member", i), wit)
+		}
+		if in, ok := rb["input"]; typ == "tool_use" && (!ok || len(in) == 0 || in[0] != '{') {
+			run.Violation("C13/buffered/malformed-block/tool_use-without-input", fmt.Sprintf("buffered translation: content block %d is a tool_use block without an input object", i), wit)
+		}
+	}
 	for _, cb := range bo.Content {
 		switch cb.Type {
 		case "text":
@@ -577,10 +604,20 @@ func endToEnd(run *rep.Run, rng *rand.Rand, tr *anthropic.Translator) {
 		}
 		for i := 0; i < n; i++ {
 			c := genCompletion(rng)
+			if i == 1 {
+				// a whole tool call with 1.2 MB of arguments in a single chunk, i.e. one SSE line of
+				// more than a megabyte (a backend that emits whole calls, a large document as argument)
+				c = completion{Model: "mall", Finish: "tool_calls", Usage: "in-finish", PromptTok: 5, ComplTok: 7, Gran: "single",
+					Segs: []seg{{Tool: true, ID: "call_big_1", Name: "store", Args: `{"doc":"` + strings.Repeat("0123456789abcdef", 75000) + `"}`}}}
+				run.Count("e2e_oversize_line_cases", 1)
+			}
 			sse := renderSSE(rng, c)
 			var writes []int
 			for left := len(sse); left > 0; {
 				k := 1 + rng.Intn(300)
+				if len(sse) > 1<<20 {
+					k = 32 << 10
+				}
 				if rng.Intn(6) == 0 {
 					k = 1 + rng.Intn(5)
 				}
